@@ -241,6 +241,7 @@ impl Failure {
 
 #[derive(Default)]
 struct Stats {
+    selfchecks: u64,
     sources: usize,
     compiled: usize,
     not_compiled: usize,
@@ -671,16 +672,40 @@ fn run_program(
                         .filter(|t| builder.is_user_arg_type(&builder.type_long_id(t).generic_id))
                         .count();
                     // (SierraCasmRunner::run_function documents: "no other ref params")
-                    if v < 2 && user_rets <= 1 && !mutant {
+                    // self-checking functions (`chk_*`, instantiation zoo): written so that the source-level result
+                    // is `true` for every argument; anything else is a wrong value (leg C01)
+                    let is_chk = !mutant && fname.rsplit("::").next().map(|l| l.starts_with("chk_") && l.chars().all(|c| c.is_ascii_alphanumeric() || c == '_')).unwrap_or(false);
+                    if (v < 2 || is_chk) && user_rets <= 1 && !mutant {
                         let r = catch(AssertUnwindSafe(|| {
                             runner.run_function_with_starknet_context(func, args.clone(), Some(large), StarknetState::default())
                         }));
                         match r {
                             Ok(Ok(r)) => {
                                 stats.cross_checked += 1;
-                                match r.value {
+                                match &r.value {
                                     RunResultValue::Success(_) => stats.runs_success_value += 1,
                                     RunResultValue::Panic(_) => stats.runs_panic_value += 1,
+                                }
+                                if is_chk {
+                                    stats.selfchecks += 1;
+                                    let good = matches!(&r.value, RunResultValue::Success(v) if v.len() == 1 && v[0] == Felt252::from(1u8));
+                                    if !good {
+                                        failures.push(Failure {
+                                            leg: "C01",
+                                            program: name.to_string(),
+                                            function: fname.clone(),
+                                            args: shown.clone(),
+                                            gas: Some(large),
+                                            solver,
+                                            what: format!(
+                                                "a self-checking function (true for every argument by construction) returned {:?}",
+                                                match &r.value {
+                                                    RunResultValue::Success(v) => format!("Success({:?})", v.iter().map(|f| f.to_string()).collect::<Vec<_>>()),
+                                                    RunResultValue::Panic(v) => format!("Panic({:?})", v.iter().map(|f| f.to_string()).collect::<Vec<_>>()),
+                                                }
+                                            ),
+                                        });
+                                    }
                                 }
                                 let g = r.gas_counter.map(|f| f.to_bigint());
                                 if g != out.gas_left || r.used_resources.basic_resources.n_steps != out.n_steps {
@@ -883,7 +908,7 @@ fn worker_main(batch_file: &str, result_file: &str) {
         "c04_max_actual_over_charged_permille": stats.c04_max_ratio_permille,
         "c17_call_instances": stats.c17_call_instances, "c17_call_instances_declared": stats.c17_call_instances_declared,
         "c17_trace_pcs": stats.c17_trace_pcs, "c17_const_segment_pcs": stats.c17_const_segment_pcs,
-        "cross_checked": stats.cross_checked,
+        "cross_checked": stats.cross_checked, "selfchecks": stats.selfchecks,
         "distinct_traces": stats.distinct_traces.iter().map(|x| x >> 11).collect::<Vec<_>>(),
         "builtin_uses": stats.builtin_uses, "samples": stats.samples,
         "failures": failures.iter().map(|f| f.json()).collect::<Vec<_>>(),
